@@ -29,7 +29,9 @@ RULE = ("Hypothesis draws non-DAQmx source files biased to fragmentation (C01 ge
         "and a channel split over >=2 of them, or an empty / untyped channel."
         ' A further job defragments sources with long channels (16 KiB - 768 KiB, lengths on and next to powers of '
         'two); a copy written to a path with index_file=True is also read back by path (read and open) with the index '
-        'defragment wrote.')
+        'defragment wrote.'
+        ' Source lead-ins carry version numbers 4711 / 4712 / 4713 / 4714 / 0, the version argument may be omitted '
+        '(documented default 4712), destinations may be pathlib.Path objects.')
 ASSUMPTIONS = [
     "float-with-unit channels are compared as their float type (the writer API has no with-unit types)",
     "order of groups/channels in the copy is not asserted (the statement does not mention it)",
